@@ -218,13 +218,8 @@ func (h *H) checkOrmqrFull(id string, nq int) {
 	rng := h.c.RNG("ormqrfull", nq)
 	cs := h.newCase(id, rng)
 	defer cs.done()
-	f, tau := randomReflectors(rng, "QR", nq, nq)
-	for i := range tau {
-		if tau[i] == 0 {
-			tau[i] = 1.5
-		}
-	}
-	tau[nq-1] = 2 // v = e_last: H = I - 2 e eᵀ is orthogonal
+	f, tau := randomReflectors(rng, "QR", nq, nq) // every H_i orthogonal (tau_i = 2/vᵀv or 0)
+	tau[nq-1] = 2                                 // v = e_last: H = I - 2 e eᵀ is orthogonal
 	q := formQ("QR", f, tau, nq)
 	c := ref.FromFunc(nq, 3, func(i, j int) float64 { return rng.Sym() })
 	want := ref.Mul(q, c)
